@@ -175,7 +175,7 @@ class VFS:
     def __init__(self, by_basename=None):
         self.files = {}
         self.opened = []
-        self.by_basename = dict(by_basename or {})
+        self.by_basename = by_basename if by_basename is not None else {}
         self.last_reader = None
 
     def lookup(self, path):
@@ -269,15 +269,28 @@ class PanelSym:
     def m_getattr(self, interp, attr):
         if attr == "index":
             return list(self.index)
-        if attr == "iterrows":
+        if attr in ("iterrows", "sort_index", "copy", "reset_index"):
             return BoundExt(self, attr)
         if attr == "shape":
             return (len(self.cases), 1)
+        if attr == "ndim":
+            return 2
         raise Undecided("DataFrame.%s of the written panel" % attr)
 
     def m_method(self, interp, name, args, kwargs, node):
         if name == "iterrows":
             return [(lab, RowSym(c)) for lab, c in zip(self.index, self.cases)]  # (row label, row) as pandas does
+        if name == "sort_index":
+            if args or set(kwargs) - {"axis"} or kwargs.get("axis", 0) not in (0, "index"):
+                raise Undecided("DataFrame.sort_index with options")
+            order = sorted(range(len(self.index)), key=lambda i: self.index[i])
+            return PanelSym([self.cases[i] for i in order], [self.index[i] for i in order])
+        if name == "copy":
+            return PanelSym([list(c) for c in self.cases], self.index)
+        if name == "reset_index":
+            if kwargs.get("drop") is not True or args:
+                raise Undecided("DataFrame.reset_index without drop=True")
+            return PanelSym(self.cases, None)
         raise Undecided("DataFrame.%s" % name)
 
     def m_len(self, interp):
@@ -850,7 +863,20 @@ def make_externals(vfs, listing=None):
         data = args[0] if args else kwargs.get("data", [])
         return IndexV(list(interp.iterate(data)))
 
+    class _IdentityDecorator:
+        def m_call(self, interp, args, kwargs, node):
+            return args[0]
+
+    def _decorator_factory(interp, args, kwargs, node):
+        """functools.lru_cache / cache / wraps: transparent for a single call (memoisation across calls is judged by the
+        statelessness rule, not here)."""
+        from ._c18_mini import Func
+        if len(args) == 1 and not kwargs and isinstance(args[0], Func) and node is not None:
+            return args[0]
+        return _IdentityDecorator()
+
     ext.update({
+        "functools.lru_cache": _decorator_factory, "functools.cache": _decorator_factory, "functools.wraps": lambda i, a, k, n: _IdentityDecorator(),
         "pandas.Index": _index,
         "numpy.arange": _arange,
         "numpy.all": _reduce(all), "numpy.any": _reduce(any), "numpy.sum": _reduce(sum),
